@@ -3150,6 +3150,69 @@ def _starts_from_filter_nodes(m: SearchModel) -> bool:
     return m.outer_kind == "while" and bool(m.worklist_sources) and all(any(s_ == f"{p}.{NODE_ATTR}" for p in m.filter_params) for s_ in m.worklist_sources)
 
 
+def _mapping_annotation(ann: ast.AST) -> tuple[str, str] | None:
+    """(key type, value type) as text for `Mapping[K, V]` / `dict[K, V]` / `Dict[K, V]` / `defaultdict[K, V]` (also Optional / quoted)."""
+    if isinstance(ann, ast.Constant) and isinstance(ann.value, str):
+        try:
+            ann = ast.parse(ann.value, mode="eval").body
+        except SyntaxError:
+            return None
+    if isinstance(ann, ast.BinOp) and isinstance(ann.op, ast.BitOr):
+        return _mapping_annotation(ann.left) or _mapping_annotation(ann.right)
+    if isinstance(ann, ast.Subscript) and norm(ann.value).split(".")[-1] == "Optional":
+        return _mapping_annotation(ann.slice)
+    if isinstance(ann, ast.Subscript) and norm(ann.value).split(".")[-1] in ("Mapping", "MutableMapping", "dict", "Dict", "defaultdict", "DefaultDict", "OrderedDict") and isinstance(ann.slice, ast.Tuple) and len(ann.slice.elts) == 2:
+        return norm(ann.slice.elts[0]), norm(ann.slice.elts[1])
+    return None
+
+
+def _caller_built_map(m: SearchModel, param: str) -> bool | None:
+    """How the callers of the search build the node -> object lookup they hand in for `param`: True = one object per node
+    (`{n: o for o in objects for n in get_all_submodules_of(g, o)}`, `D[n] = o`), False = all of them (`D[n].append(o)`,
+    `D.setdefault(n, []).append(o)`); None when no caller builds it in a way the model reads."""
+    repo = m.fi.module.repo  # type: ignore[attr-defined]
+    base = m.base or m.fi
+    idx = base.param_names.index(param) if param in base.param_names else -1
+    verdicts: list[bool] = []
+    for mod in repo.modules.values():
+        for f in mod.all_funcs:
+            if isinstance(f.node, ast.Lambda):
+                continue
+            for c in own_nodes(f.node):
+                if not (isinstance(c, ast.Call) and dotted(c.func).split(".")[-1] == base.name):
+                    continue
+                arg = next((k.value for k in c.keywords if k.arg == param), c.args[idx] if 0 <= idx < len(c.args) else None)
+                if not isinstance(arg, (ast.Name, ast.DictComp)):
+                    return None
+                comp = arg
+                if isinstance(arg, ast.Name):
+                    vals = [n.value for n in own_nodes(f.node) if isinstance(n, ast.Assign) and len(n.targets) == 1 and isinstance(n.targets[0], ast.Name) and n.targets[0].id == arg.id] + [n.value for n in own_nodes(f.node) if isinstance(n, ast.AnnAssign) and isinstance(n.target, ast.Name) and n.target.id == arg.id and n.value is not None]
+                    if len(vals) != 1:
+                        return None
+                    comp = vals[0]
+                    writes = [n for n in own_nodes(f.node) if isinstance(n, ast.Subscript) and isinstance(n.value, ast.Name) and n.value.id == arg.id]
+                    if not isinstance(comp, ast.DictComp):
+                        # built by statements: `D[n] = o` (one object) vs `D[n].append(o)` / `D.setdefault(n, []).append(o)` (all of them)
+                        stores = [w for w in writes if isinstance(w.ctx, ast.Store)]
+                        appends = [n for n in own_nodes(f.node) if isinstance(n, ast.Call) and isinstance(n.func, ast.Attribute) and n.func.attr in ("append", "add") and _receiver_of(n.func.value)[0] == arg.id and _receiver_of(n.func.value)[1] is not None]
+                        if stores and not appends and all(isinstance(parent(w), ast.Assign) and isinstance(parent(w).value, ast.Name) for w in stores):
+                            verdicts.append(True)
+                            continue
+                        if appends and not stores:
+                            verdicts.append(False)
+                            continue
+                        return None
+                    if any(isinstance(w.ctx, (ast.Store, ast.Del)) for w in writes):
+                        return None
+                if not isinstance(comp, ast.DictComp) or not any(isinstance(x, ast.Call) and isinstance(x.func, ast.Name) and x.func.id == SUBMODULES for g in comp.generators for x in ast.walk(g.iter)):
+                    return None
+                # {node: o ..}: one object per node unless the value collects
+                verdicts.append(isinstance(comp.value, ast.Name))
+    if not verdicts or len(set(verdicts)) != 1:
+        return None
+    return verdicts[0]
+
+
 def _node_maps(m: SearchModel) -> dict[str, NodeMap]:
     out: dict[str, NodeMap] = {}
     fn = m.fi.node
@@ -3178,6 +3241,19 @@ def _node_maps(m: SearchModel) -> dict[str, NodeMap]:
                     recv, key = _receiver_of(n.func.value)
                     if recv and isinstance(key, ast.Name) and key.id == tvar:
                         out[recv] = NodeMap(recv, st.collection, st.param, False, n)
+    # a lookup built by the caller and handed in: `objects_by_node: Mapping[AbstractNode, ModuleFilter]`
+    for a in m.fi.params:
+        if a.arg in out or a.arg == m.graph or a.annotation is None:
+            continue
+        got = _mapping_annotation(a.annotation)
+        if got is None or "ModuleFilter" not in got[1]:
+            continue
+        single = not any(t in got[1] for t in ("[", "list", "set", "tuple", "Sequence", "Iterable", "Collection"))
+        built = _caller_built_map(m, a.arg)
+        if built is not None:
+            single = built
+        out[a.arg] = NodeMap(a.arg, a.arg, None, single, a)
+        out[a.arg].from_caller = built is not None  # type: ignore[attr-defined]
     # a map is only what the model says when nothing else writes to it
     for name in list(out):
         nm = out[name]
